@@ -170,6 +170,57 @@ def apply_rules(text, rules, report):
     return text
 
 
+def find_closures(body):
+    """(start, params_end, body_start, body_end, is_block) of every closure `|params| BODY` that is an
+    argument / initialiser (preceded by `(`, `,` or `=`), in source order; BODY ends at the `)` / `,` / `;`
+    that closes the enclosing argument (balanced), or is a `{..}` block."""
+    mb = mask_source(body)
+    res = []
+    for m in re.finditer(r'(?<=[(,=])\s*(?:move\s+)?\|([^|]*)\|\s*', mb):
+        st = m.start() + (len(m.group(0)) - len(m.group(0).lstrip()))
+        bs = m.end()
+        if bs < len(mb) and mb[bs] == '{':
+            depth, i = 0, bs
+            while i < len(mb):
+                if mb[i] == '{':
+                    depth += 1
+                elif mb[i] == '}':
+                    depth -= 1
+                    if depth == 0:
+                        break
+                i += 1
+            res.append((st, m.end(), bs, i + 1, True))
+            continue
+        depth, i = 0, bs
+        while i < len(mb):
+            c = mb[i]
+            if c in '([{':
+                depth += 1
+            elif c in ')]}':
+                if depth == 0:
+                    break
+                depth -= 1
+            elif c in ',;' and depth == 0:
+                break
+            i += 1
+        res.append((st, m.end(), bs, i, False))
+    return res
+
+
+def annotate_closures(body, table, rep):
+    cls = find_closures(body)
+    for n in sorted(table, reverse=True):
+        if n >= len(cls):
+            raise AssembleError(f'{rep["item"]}: closure #{n} not found (body has {len(cls)} closures) — anchor lost')
+        st, pe, bs, be, is_block = cls[n]
+        inner = body[bs:be]
+        new = table[n] + ' ' + (inner if is_block else '{ ' + inner.rstrip() + ' }')
+        body = body[:st] + new + body[be:]
+        rep.setdefault('rules', {})['Rcl: closure header replaced by an annotated header (parameter types + requires/ensures); closure body verbatim'] = \
+            rep.setdefault('rules', {}).get('Rcl: closure header replaced by an annotated header (parameter types + requires/ensures); closure body verbatim', 0) + 1
+    return body
+
+
 def parse_rewrite(arg):
     m = re.match(r'/(.*)/\s*=>\s*/(.*)/\s*(?:x(\d+|\*))?\s*$', arg)
     if not m:
@@ -382,6 +433,13 @@ class Assembler:
                 if not m:
                     raise AssembleError(f'bad capture directive: {b}')
                 opts.setdefault('capture', []).append((m.group(1), m.group(2)))
+            elif b.startswith('closure '):
+                # `closure N: |x: T| -> (r: R) requires .. ensures ..` : contract annotation of the N-th
+                # (0-based) closure of the body; the closure's body text stays verbatim (rule Rcl)
+                m = re.match(r'(\d+)\s*:\s*(.*)$', b[8:].strip())
+                if not m:
+                    raise AssembleError(f'bad closure directive: {b}')
+                opts.setdefault('closures', {})[int(m.group(1))] = m.group(2)
             elif b.startswith('rename '):
                 opts['rename'] = b[7:].strip()
             elif b.startswith('valueof '):
@@ -447,6 +505,15 @@ class Assembler:
                 cur.append('  ' + m.group(3))
             elif cur is not None:
                 cur.append(raw)
+        # `onlyfns a,b`: the block must define exactly these fns (e.g. an Iterator impl that must not
+        # override `find` / `try_fold`, whose default definitions a glue function relies on)
+        for raw in block:
+            mo = re.match(r'\s*onlyfns\s+([\w,\s]+)$', raw)
+            if mo:
+                want = sorted(x.strip() for x in mo.group(1).split(',') if x.strip())
+                have = sorted(ch.name for ch in imp.children if ch.kind == 'fn')
+                if want != have:
+                    raise AssembleError(f'{rel.strip()} :: {ipath.strip()}: onlyfns {want} but the block defines {have}')
         for ch in imp.children:
             if ch.kind not in ('fn', 'const', 'type'):
                 continue
@@ -537,6 +604,8 @@ class Assembler:
                     raise AssembleError(f'{rep["item"]}: loop #{n} not found (has {len(loops)} loops) — anchor lost')
                 _, _, bo = loops[n]
                 body = body[:bo] + '\n' + '\n'.join(opts['loops'][n]) + '\n' + body[bo:]
+        if opts.get('closures'):
+            body = annotate_closures(body, opts['closures'], rep)
         body = apply_rules(body, [r for r in opts['rules'] if r != 'R7'], rep)
         if 'R7' in opts['rules']:
             # R7: Verus has no `mut self` parameters.  `fn f(mut self, ..) { BODY }` is
@@ -593,6 +662,9 @@ class Assembler:
             # const into a free const (rename) plus an alias (valueof), because
             # Verus only supports simple expressions in trait consts.
             m = re.match(r'((?:pub(?:\s*\([^)]*\))?\s+)?const\s+)(\w+)(\s*:\s*[^=]+?=\s*)(.*);\s*$', text, flags=re.S)
+            if not m and re.match(r'const\s+\w+\s*:\s*[^=;]+;\s*$', text, flags=re.S):
+                # declaration of a trait const without a default value: verbatim
+                return kept + text + '\n'
             if not m:
                 raise AssembleError(f'{rep["item"]}: cannot parse const item')
             name, expr = m.group(2), m.group(4)
